@@ -34,6 +34,8 @@ pub struct Solver {
 /// Raised (as a panic payload) when the engine cannot go on soundly.
 #[derive(Debug, Clone)]
 pub struct Inconclusive(pub String);
+/// payload of the panic that ends a path whose decision count exceeded the limit (already recorded as a violation)
+pub struct PathAborted;
 
 fn solver_cmd() -> (String, Vec<String>) {
     let which = std::env::var("SYMX_SOLVER").unwrap_or_else(|_| "z3".into());
@@ -310,6 +312,8 @@ pub struct Engine {
     queue: Vec<(Vec<(String, bool)>, Vec<(String, bool)>)>,
     in_path: bool,
     path_obligations_ok: bool,
+    path_decisions: u64,
+    path_start: std::time::Instant,
     path_id: u64,
     pub stats: Stats,
     pub budget_paths: u64,
@@ -344,6 +348,8 @@ impl Engine {
             queue: vec![],
             in_path: false,
             path_obligations_ok: true,
+            path_decisions: 0,
+            path_start: std::time::Instant::now(),
             path_id: 0,
             stats: Stats::default(),
             budget_paths: 20_000,
@@ -390,6 +396,19 @@ impl Engine {
 
     fn decide(&mut self, t: &str) -> bool {
         self.stats.decisions += 1;
+        self.path_decisions += 1;
+        if self.path_decisions % 64 == 0 && self.path_start.elapsed().as_secs() >= MAX_PATH_SECS {
+            // same, measured by the clock: a loop whose terms grow with every round never repeats a question
+            self.path_start = std::time::Instant::now();
+            self.fail("terminates", &format!("one path ran for more than {} s: the code under test does not terminate on this input", MAX_PATH_SECS));
+            std::panic::panic_any(PathAborted);
+        }
+        if self.path_decisions > MAX_PATH_DECISIONS {
+            // the code under test keeps asking (memoised) questions without ever finishing: a loop that does not terminate
+            self.path_decisions = 0;
+            self.fail("terminates", &format!("more than {} decisions on one path: the code under test does not terminate on this input", MAX_PATH_DECISIONS));
+            std::panic::panic_any(PathAborted);
+        }
         if t == "true" {
             return true;
         }
@@ -443,6 +462,13 @@ impl Engine {
     /// Obligation: under the current path condition `t` must be valid.
     fn check(&mut self, name: &str, t: &str, detail: &str) -> bool {
         self.stats.obligations += 1;
+        if self.path_start.elapsed().as_secs() >= MAX_PATH_SECS || t.len() > MAX_TERM_BYTES {
+            // the path has been running for too long, or the answer is a term of many megabytes (arithmetic that feeds on
+            // itself): reported with the path's model and judged by the native replay
+            self.path_start = std::time::Instant::now();
+            self.fail("terminates", &format!("obligation {} reached after {} s with a term of {} bytes: the code under test does not come to an answer of reasonable size on this input", name, MAX_PATH_SECS, t.len()));
+            std::panic::panic_any(PathAborted);
+        }
         if t == "true" {
             self.stats.discharged += 1;
             return true;
@@ -508,6 +534,13 @@ impl Engine {
         self.path_obligations_ok = false;
     }
 }
+
+/// decisions allowed on one path (memoised ones included) before the path is reported as non-terminating
+pub const MAX_PATH_DECISIONS: u64 = 3_000_000;
+/// wall-clock seconds one path may take before it is reported as non-terminating
+pub const MAX_PATH_SECS: u64 = 90;
+/// largest obligation text that is still sent to the solver
+pub const MAX_TERM_BYTES: usize = 8 << 20;
 
 pub fn decide(t: &str) -> bool {
     with(|e| e.decide(t))
@@ -666,6 +699,8 @@ pub fn explore<I>(cfg: &Config, setup: impl FnOnce() -> I, body: impl Fn(&I)) ->
             }
             e.in_path = true;
             e.path_obligations_ok = true;
+            e.path_decisions = 0;
+            e.path_start = std::time::Instant::now();
             e.path_id = e.stats.paths;
             e.stats.paths += 1;
         });
@@ -674,6 +709,11 @@ pub fn explore<I>(cfg: &Config, setup: impl FnOnce() -> I, body: impl Fn(&I)) ->
         if let Err(p) = r {
             if let Some(inc) = p.downcast_ref::<Inconclusive>() {
                 with(|e| e.stats.inconclusive = Some(inc.0.clone()));
+                stop = true;
+            } else if p.downcast_ref::<PathAborted>().is_some() {
+                // already recorded as a `terminates` violation; every further path of this instance could cost the same
+                // 90 s, so the instance ends here and says so
+                with(|e| e.stats.inconclusive = Some("exploration stopped after a path that did not terminate (reported as a violation)".into()));
                 stop = true;
             } else {
                 let msg = payload_msg(&p);
